@@ -194,6 +194,9 @@ def step (st : State) (toks : List String) : State × String :=
       let st := { st with c := clearTr st.c, others := st.others.map (fun (o : String × Cluster) => (o.1, clearTr o.2)) }
       let p' := p.cycle ((p.queue.foldl Replication.pollerStep { p with queue := [] }).live.map (·.1))
       let targets := (Membership.sortMembers p'.live).map (·.2)
+      -- a member inside a hung handler never answers `GetState`: since fix D32 the poll of that member ends at its deadline
+      -- with an error (nothing is synced from it) and the cycle goes on to the next member
+      let targets := targets.filter (fun i => !st.stuck.contains i)
       (targets.foldl (fun acc i => (repairAll acc j i true).1) { st with pollers := st.pollers.filter (·.1 ≠ j) }, "ok")
     | none => (st, "bad-op")
   | ["repair-begin", j, i, rf] =>
@@ -263,10 +266,17 @@ def step (st : State) (toks : List String) : State × String :=
       | some b =>
         let targets := StoreDom.sortNat ((b.targets.map (·.2)).eraseDups)
         let docs := (Replication.lookup b.modified st.cur).getD []
-        let c1 := docs.foldl (fun acc doc => targets.foldl (fun acc t => (applyAt acc t 0 (.put doc)).1) acc) c
+        -- `apply_batch`: one bulk write per keyspace at every live member (`Cluster.broadcast`); a member whose storage
+        -- call hangs has the document in its store and stays silent, a member inside a hung handler gets nothing
+        let (c1, stuck) := broadcast c st.down st.hangNext st.stuck targets (.mput docs)
         let c1 := { c1 with ops := c1.ops ++ docs.map (fun doc => (i, Issued.put doc)) }
-        ({ st with c := c1, dists := (i, dist') :: st.dists.filter (·.1 ≠ i) },
-          "recv " ++ (if targets.isEmpty then "-" else ",".intercalate (targets.map toString)))
+        let holders := targets.filter (fun t => docs.all (fun doc =>
+          match Storage.aget (getNode c1 t).ks.store.rows doc.1 with
+          | some (ts', _) => ts' == doc.2.1
+          | none => false))
+        ({ st with c := c1, stuck := stuck, hangNext := st.hangNext.filter (fun t => !stuck.contains t),
+                   dists := (i, dist') :: st.dists.filter (·.1 ≠ i) },
+          "recv " ++ (if holders.isEmpty then "-" else ",".intercalate (holders.map toString)))
     | _, _, _, _ => (st, "bad-op")
   | ["advance", _] => (st, "ok")      -- time is not part of the model: stamps come from the implementation
   | ["failnext", j] =>
